@@ -12,11 +12,11 @@
   Still on the run-time tie (`RuntimeTie`): `@skip/@include` conditions are Boolean literals or defined variables with a
   value (ValuesOfCorrectType, VariablesInAllowedPosition, NoUndefinedVariables, KnownDirectives + variable coercion);
   `fragsAcyclic` (NoFragmentCyclesChecker has no `rule_*_iff` yet); operations have a root object type; no `__schema` /
-  `__type` selections (introspection is C15's); `KeyConsistent` (OverlappingFieldsCanBeMerged).
+  `__type` selections (introspection is C15's); `MergeSafe` (OverlappingFieldsCanBeMerged).
 -/
 import PyGqlModel.Spec.ValidDoc
 import PyGqlModel.Props.C06_all
-import PyGqlModel.Props.C05_exec
+import PyGqlModel.Props.C05_merge
 
 set_option linter.unusedSimpArgs false
 set_option linter.unusedVariables false
@@ -299,7 +299,7 @@ structure RuntimeTie (s : SchemaD) (d : Validate.Doc) (vars : Exec.Vars) : Prop 
 def RuntimeTieClauses : List String :=
   ["skip/include conditions well-typed and bound (ValuesOfCorrectType, VariablesInAllowedPosition, NoUndefinedVariables, KnownDirectives)",
    "operations have a root object type", "no __schema/__type selections", "NoFragmentCycles (fragsAcyclic)",
-   "KeyConsistent (OverlappingFieldsCanBeMerged) — separate hypothesis of validated_no_internal_error"]
+   "MergeSafe (OverlappingFieldsCanBeMerged, declarative; `mergeSafeB` evaluated by the driver on every accepted document) — separate hypothesis of validated_no_internal_error"]
 
 private theorem frags_names (d : Validate.Doc) : (eDoc d).frags.map (·.name) = fragNames d := by
   unfold eDoc fragNames
@@ -460,15 +460,16 @@ theorem rules_accept_validDoc (s : SchemaD) (hs : SchemaWf s) (fx : Validate.Fix
 
 
 /-- **rules_accept_cannot_go_wrong**: the soundness chain from the validator MODEL to the executor model — silent rules
-    (+ the `RuntimeTie` clauses and `KeyConsistent`), a schema whose objects implement their interfaces covariantly, a
-    typed world ⇒ no request on the document ends in an internal exception, for every operation name and fuel. -/
+    (+ the `RuntimeTie` clauses and `MergeSafe`, the declarative form of OverlappingFieldsCanBeMerged whose rule
+    equivalence C06 is proving), a schema whose objects implement their interfaces covariantly, a typed world ⇒ no
+    request on the document ends in an internal exception, for every operation name and fuel. -/
 theorem rules_accept_cannot_go_wrong (s : SchemaD) (hs : SchemaWf s) (hso : SchemaOk s) (fx : Validate.Fixes) (d : Validate.Doc)
     (vars : Exec.Vars) (h1 : C06.Silent s fx .fieldsOnCorrectType d) (h2 : C06.Silent s fx .scalarLeafs d)
     (h3 : C06.Silent s fx .knownFragmentNames d) (h4 : C06.Silent s fx .fragmentsOnCompositeTypes d)
-    (h5 : C06.Silent s fx .uniqueFragmentNames d) (rt : RuntimeTie s d vars) (hk : Spec.keyConsistentB (eDoc d) = true)
+    (h5 : C06.Silent s fx .uniqueFragmentNames d) (rt : RuntimeTie s d vars) (hm : MergeSafe s (eDoc d))
     (w : Exec.World) (hw : WorldTyped s w) :
     ∀ (op : Option String) (fuel cf : Nat) (cls : String), Exec.execute s (eDoc d) vars w op fuel cf ≠ .failed (.internal cls) :=
-  validated_no_internal_error s hso (eDoc d) vars (rules_accept_validDoc s hs fx d vars h1 h2 h3 h4 h5 rt) hk w hw
+  validated_no_internal_error s hso (eDoc d) vars (rules_accept_validDoc s hs fx d vars h1 h2 h3 h4 h5 rt) hm w hw
 
 /-! non-vacuity: a document of the validator's AST with a fragment, an inline fragment and a directive, translated -/
 def brSchema : SchemaD :=
